@@ -506,7 +506,7 @@ class RidgeScenario:
 
     def plan(self, tier):
         q, f = {"quick": (6000, 6000), "thorough": (300000, 300000)}[tier]
-        return {"quiet": q, "faults": f, "timeout": 120.0, "budget": 75.0 if tier == "quick" else 3 * 3600.0, "slice": 40}
+        return {"quiet": q, "faults": f, "timeout": 120.0, "budget": 75.0 if tier == "quick" else 3600.0, "slice": 40}
 
     def generate(self, rng, idx, tier, faults):
         tr = gen_c10(rng, idx, tier, faults)
